@@ -8,7 +8,7 @@ from ..keval import KEval, Ref, Cond, Const, Top
 from ..poly import Poly, ZERO, ONE
 from ..forms import value_poly, real_guards, short, canon_store, ref_store
 from .. import wire
-from ..model import norm_text, AnchorMissing
+from ..model import canon_src, norm_text, AnchorMissing
 from ..controls import Control
 from ..mutate import in_func
 
@@ -134,7 +134,7 @@ def kernel_rule(ctx, p, K):
         cs = wire.calls_to(p, m, callee.key)
         got = {k: norm_text(wire.strip_np_array(v)) for k, v in wire.kw(cs[0], callee).items()} if len(cs) == 1 else {}
         rets = wire.returns_of(m)
-        ok = got == {"scale": "self.scale", "pixel_points": "linear_obj.source_plane_mesh_grid"} and len(rets) == 1 and norm_text(rets[0].value) == "self.coefficient * np.linalg.inv(covariance_matrix)"
+        ok = got == {"scale": "self.scale", "pixel_points": "linear_obj.source_plane_mesh_grid"} and len(rets) == 1 and norm_text(rets[0].value) == canon_src("self.coefficient * np.linalg.inv(covariance_matrix)")
         ctx.ob(rule, m.key, ok, where=m, node=m.node, construct=f"{got}; returns {norm_text(rets[0].value) if rets else None}", message="the matrix must be coefficient * inverse of the covariance of the object's own mesh points at the scheme's own scale")
 
 
